@@ -25,6 +25,7 @@ PROPS["C16"] = {
         {"pkg": "internal/lattice", "configs": {"quick": ["default", "force32bit", "386"], "thorough": ["default", "purego", "force32bit", "386"]},
          "tests": {
              "TestC16ShortVector": T(300000, 10000000),
+             "TestC16ParShortVector": T(8000, 600000),
              "TestC16BigInt": T(40000, 1000000),
              "TestC16Int128": T(40000, 1000000),
              "TestC16Int128FromScalar": T(10000, 200000),
